@@ -1,8 +1,33 @@
 import TmcgProofs.Dkg
 /-
   C15, global layer: view consistency of the honest parties in `runGen` (rounds 0..3) and the two
-  agreement statements `qual_agree'`, `honest_in_qual'` (statements of `qual_agree`,
-  `honest_in_qual` of TmcgProofs/Dkg.lean).
+  agreement statements of TmcgProofs/Dkg.lean (`qual_agree`, `honest_in_qual`).
+
+  Proved (no `sorry`):
+    * `qual_agree'`, `honest_in_qual'`   the statements of `qual_agree` / `honest_in_qual` with ONE
+                                         additional hypothesis `n < 2 ^ 64`
+    * `qual_agree_unbounded_false`,
+      `honest_in_qual_unbounded_false`   the statements exactly as written in Dkg.lean (no bound on `n`)
+                                         are FALSE in the model: `n = 2^64`, `t = 0`, every party honest.
+                                         `getUi` (`mpz_get_ui`) truncates the end marker `n` of a complaint
+                                         list to `n mod 2^64 = 0 < n`; `genReadComplaints` reads it as a
+                                         complaint against party 0, goes on reading and times out, so the
+                                         sender is put on the complaint list: party 0 ends with
+                                         `1 ∉ QUAL`, party 1 with `1 ∈ QUAL`.
+  Structure:
+    (1)  round glue: `runRound` pointwise (`ag_runRound_party`, `Delivered`): the broadcast part of
+         sender `k` appended to `b[k]` is the same list `(outOf steps ps k).1` for every receiver
+    (2)  `stepParty`; the output filter of a party with an honest script is the identity
+    (3)  `qual` is not changed by rounds ≥ 4 (`ag_runRounds_qual`)
+    (4)  the readers as functions of ONE sender's stream (`reS`, `rcS`, `raS`, `shOne`) and the
+         equations `ag_readElems`, `ag_genReadComplaints`, `ag_genReadAnswers`, `ag_genReadShares_cons`
+    (5)  the loops over the senders: what is read / left alone (`…_frame`, `…_hit`, `…_glob`),
+         the complaint counters as sums (`ag_genCollectGo_cnt`), totality of the arithmetic
+    (6)  the readers on well-formed streams (`ag_reS_honest`, `ag_rcS_honest`, `ag_raS_honest`)
+    (7)  specifications of the four step functions (`ag_genDeal_honest`, `ag_genVerify_spec`,
+         `ag_genCollect_spec`, `ag_genResolve_spec`)
+    (8)–(12) the invariants after rounds 0, 1, 2, 3 (`Inv1` … `Inv4`) and the theorems
+    (13) the refutation for `n = 2^64`
 -/
 namespace Tmcg.DkgP
 open Tmcg Tmcg.Powm Tmcg.Dkg Tmcg.Grp Tmcg.DkgL
@@ -2207,5 +2232,648 @@ theorem ag_round1 (S : Setting G n t ins) (hn64 : n < 2 ^ 64) (R : List (Party G
       · intro w hw
         simp only [rcNews, hstream, hrc]
         rw [e1, v8, ag_getN_map_range _ _ w hw, ag_count_indicator D v6 w]
+
+/-! ### (11) round 2: the complaint counters -/
+
+theorem ag_sum_le_countP (L : List Nat) (f : Nat → Nat) (p : Nat → Bool) (h1 : ∀ x ∈ L, f x ≤ 1)
+    (h0 : ∀ x ∈ L, p x = true → f x = 0) : (L.map f).sum ≤ L.countP (fun x => !p x) := by
+  induction L with
+  | nil => simp
+  | cons a L ih =>
+    have ih' := ih (fun x hx => h1 x (List.mem_cons_of_mem _ hx)) (fun x hx => h0 x (List.mem_cons_of_mem _ hx))
+    simp only [List.map_cons, List.sum_cons, List.countP_cons]
+    cases hp : p a
+    · have := h1 a (by simp)
+      simp
+      omega
+    · have := h0 a (by simp) hp
+      simp
+      omega
+
+theorem ag_sum_filter_ne_notin (L : List Nat) (i : Nat) (hi : i ∉ L) (f : Nat → Nat) (g : Nat) :
+    ((L.filter (fun x => x ≠ i)).map f).sum = (L.map (fun x => if x = i then g else f x)).sum := by
+  induction L with
+  | nil => simp
+  | cons a L ih =>
+    have hai : a ≠ i := fun e => hi (by simp [e])
+    have hi' : i ∉ L := fun h => hi (List.mem_cons_of_mem _ h)
+    rw [List.filter_cons_of_pos (by simp [hai])]
+    simp only [List.map_cons, List.sum_cons, hai, if_false]
+    rw [ih hi']
+
+theorem ag_sum_filter_ne (L : List Nat) (hL : L.Nodup) (i : Nat) (hi : i ∈ L) (f : Nat → Nat) (g : Nat) :
+    g + ((L.filter (fun x => x ≠ i)).map f).sum = (L.map (fun x => if x = i then g else f x)).sum := by
+  induction L with
+  | nil => simp at hi
+  | cons a L ih =>
+    have hnd := List.nodup_cons.mp hL
+    by_cases hai : a = i
+    · subst hai
+      have := ag_sum_filter_ne_notin L a hnd.1 f g
+      rw [List.filter_cons_of_neg (by simp)]
+      simp only [List.map_cons, List.sum_cons, if_true]
+      rw [this]
+    · have hi' : i ∈ L := by
+        rcases List.mem_cons.mp hi with h | h
+        · exact absurd h.symm hai
+        · exact h
+      have := ih hnd.2 hi'
+      rw [List.filter_cons_of_pos (by simp [hai])]
+      simp only [List.map_cons, List.sum_cons, hai, if_false]
+      omega
+
+theorem ag_countP_nothonest (ins : List PartyIn) :
+    (List.range ins.length).countP (fun x => !((pinOf ins x).dev1.honest)) =
+      ins.length - (honestIdx ins).length := by
+  have h := List.length_eq_countP_add_countP (fun x => (pinOf ins x).dev1.honest) (l := List.range ins.length)
+  have h2 : (honestIdx ins).length = (List.range ins.length).countP (fun x => (pinOf ins x).dev1.honest) := by
+    simp [honestIdx, pinOf, List.countP_eq_length_filter]
+  simp only [List.length_range] at h
+  have h3 : (List.range ins.length).countP (fun x => !((pinOf ins x).dev1.honest)) =
+      (List.range ins.length).countP (fun a => ¬ (pinOf ins a).dev1.honest = true) := by
+    apply List.countP_congr
+    intro x _
+    simp
+  omega
+
+/-- after round 2 -/
+structure S3 (G : Grp) (n t : Nat) (ins : List PartyIn) (i : Nat) (P : Party GenSt) : Prop where
+  hl : HL P
+  hn : P.st.n = n
+  ht : P.st.t = t
+  hi : P.st.i = i
+  blen : P.inbox.b.length = n
+  CH : ∀ j, j ∈ honestIdx ins →
+    getRow P.st.C j = comOf G t (pinOf ins j) ∧ getN P.st.cnt j ≤ t ∧ j ∉ P.st.compl
+
+def Inv3 (G : Grp) (n t : Nat) (ins : List PartyIn) (R : List (Party GenSt)) : Prop :=
+  R.length = n ∧ (∀ i, i ∈ honestIdx ins → ∃ P, R[i]? = some P ∧ S3 G n t ins i P) ∧ Ag n ins R ∧
+  (∀ i i' P P', i ∈ honestIdx ins → i' ∈ honestIdx ins → R[i]? = some P → R[i']? = some P' → i ≠ i' →
+    (∀ k, k < n → k ≠ i → k ≠ i' →
+      getRow P.st.C k = getRow P'.st.C k ∧ (k ∈ P.st.compl ↔ k ∈ P'.st.compl)) ∧
+    (∀ w, w < n → getN P.st.cnt w = getN P'.st.cnt w) ∧
+    raBad G n (comOf G t (pinOf ins i)) (bsOf P'.inbox i) = false)
+
+theorem ag_bcs_triples (cfs : List Nat) (a b : Nat → Int) (n : Nat) :
+    bcs (cfs.flatMap (fun (it : Nat) => [Op.bc none (it : Int), Op.bc none (a it), Op.bc none (b it)]) ++
+      [Op.bc none (n : Int)]) =
+    cfs.flatMap (fun (it : Nat) => [((none : Tag), (it : Int)), (none, a it), (none, b it)]) ++
+      [((none : Tag), (n : Int))] := by
+  induction cfs with
+  | nil => rfl
+  | cons x cfs ih => simp only [List.flatMap_cons, List.cons_append, List.nil_append, bcs, ih]
+
+theorem ag_pvs_triples (cfs : List Nat) (a b : Nat → Int) (n : Nat) :
+    pvs (cfs.flatMap (fun (it : Nat) => [Op.bc none (it : Int), Op.bc none (a it), Op.bc none (b it)]) ++
+      [Op.bc none (n : Int)]) = [] := by
+  induction cfs with
+  | nil => rfl
+  | cons x cfs ih => simp only [List.flatMap_cons, List.cons_append, List.nil_append, pvs, ih]
+
+/-- round 2 for one honest party: its step and the party after the round -/
+theorem ag_round2_party (R : List (Party GenSt))
+    (hS : ∀ i, i ∈ honestIdx ins → ∃ P, R[i]? = some P ∧ S2 G n t ins i P)
+    (i : Nat) (hi : i ∈ honestIdx ins) :
+    ∃ (P : Party GenSt) (st' : GenSt) (I' : Inbox) (cfs : List Nat) (P' : Party GenSt),
+    R[i]? = some P ∧ S2 G n t ins i P ∧
+    (runRound (genStep G ins n t 2) R)[i]? = some P' ∧
+    (outOf (genStep G ins n t 2) R i).1 =
+      cfs.flatMap (fun (it : Nat) => [((none : Tag), (it : Int)),
+        (none, getI P.st.srow it), (none, getI P.st.sprow it)]) ++ [((none : Tag), (n : Int))] ∧
+    cfs.length ≤ n ∧ (∀ x ∈ cfs, x < n) ∧
+    P'.st = st' ∧ HL P' ∧ P'.inbox.b.length = n ∧
+    (∀ k, k < n → bsOf P'.inbox k = bsOf I' k ++
+      (if k = i then [] else (outOf (genStep G ins n t 2) R k).1)) ∧
+    st'.n = n ∧ st'.t = t ∧ st'.i = i ∧ st'.C = P.st.C ∧
+    (∀ k, k < n → k ≠ i → bsOf I' k = rcRest n (bsOf P.inbox k)) ∧
+    (∀ w, w < n → getN st'.cnt w = getN P.st.cnt w +
+      (((List.range n).filter (fun x => x ≠ i)).map (fun x => (rcNews n (bsOf P.inbox x)).count w)).sum) ∧
+    (∀ k, k ∈ st'.compl ↔ k < n ∧ k ≠ i ∧ rcBad n (bsOf P.inbox k) = true) := by
+  obtain ⟨P, hP, h2⟩ := hS i hi
+  obtain ⟨st', I', cfs, hc, c1, c2, c3, c4, c5, c6, c7, c8, c9, c10, c11, c12⟩ :=
+    ag_genCollect_spec P.st P.inbox (by rw [h2.blen, h2.hn]) (by rw [h2.clen, h2.hn])
+  simp only [h2.hn, h2.ht, h2.hi] at hc c1 c2 c3 c6 c7 c8 c9 c10 c11 c12
+  generalize hops : ((if getN st'.cnt i > 0 then cfs.flatMap (fun (it : Nat) =>
+          [Op.bc none (it : Int), Op.bc none (getI P.st.srow it), Op.bc none (getI P.st.sprow it)]) else []) ++
+        [Op.bc none (n : Int)]) = ops at hc
+  have hs : genStep G ins n t 2 i P.st P.inbox = .ok (st', I', ops, .run) := by
+    show pure (genCollect P.st P.inbox) = _
+    rw [hc]
+    rfl
+  obtain ⟨hout, P', hP', e1, e2, e3, e4, e5, e6, e7, e8, e9⟩ :=
+    ag_honest_round (genStep G ins n t 2) R i P hP h2.hl _ _ _ _ hs
+  subst hops
+  refine ⟨P, st', I', if getN st'.cnt i > 0 then cfs else [], P', hP, h2, hP', ?_, ?_, ?_, e1,
+    ⟨by rw [e4]; exact h2.hl.1, e5, e3, e2⟩, e6.trans c8, fun k hk => e8 k (by rw [c8]; exact hk),
+    c1, c2, c3, c4, c10, c11, c12⟩
+  · rw [hout]
+    simp only
+    split
+    · exact ag_bcs_triples cfs _ _ n
+    · rfl
+  · split
+    · exact c6
+    · simp
+  · split
+    · exact c7
+    · simp
+
+theorem ag_round2 (S : Setting G n t ins) (hn64 : n < 2 ^ 64) (hf : n - (honestIdx ins).length ≤ t)
+    (R : List (Party GenSt)) (h : Inv2 G n t ins R) : Inv3 G n t ins (runRound (genStep G ins n t 2) R) := by
+  obtain ⟨hlen, hS, hAg, hX⟩ := h
+  have hG := S.hG
+  have hparty := ag_round2_party (G := G) R hS
+  have hnh : (List.range n).countP (fun x => !((pinOf ins x).dev1.honest)) ≤ t := by
+    have := ag_countP_nothonest ins
+    rw [S.hn] at this
+    omega
+  refine ⟨by rw [ag_runRound_length, hlen], ?_, ?_, ?_⟩
+  · intro i hi
+    obtain ⟨P, st', I', cfs, P', hP, h2, hP', hout, cl, cx, e1, hl', bl, hb, v1, v2, v3, v4, v5, v6, v7⟩ :=
+      hparty i hi
+    refine ⟨P', hP', ⟨hl', by rw [e1]; exact v1, by rw [e1]; exact v2, by rw [e1]; exact v3, bl, ?_⟩⟩
+    intro j hj
+    obtain ⟨hj1, -⟩ := (ag_mem_honestIdx ins j).mp hj
+    rw [S.hn] at hj1
+    rw [e1]
+    refine ⟨by rw [v4]; exact (h2.CH j hj).1, ?_, ?_⟩
+    · rw [v6 j hj1, (h2.CH j hj).2, Nat.zero_add]
+      refine le_trans ?_ hnh
+      refine le_trans (ag_sum_le_countP _ _ (fun x => (pinOf ins x).dev1.honest)
+        (fun x _ => ag_rcNews_count_le n _ j) ?_) ?_
+      · intro x hx hxh
+        obtain ⟨hx1, hx2⟩ := List.mem_filter.mp hx
+        have hxn : x < n := List.mem_range.mp hx1
+        have hxi : x ≠ i := by simpa using hx2
+        have hxhon : x ∈ honestIdx ins := (ag_mem_honestIdx ins x).mpr ⟨by rw [S.hn]; exact hxn, hxh⟩
+        obtain ⟨Px, hPx, h2x⟩ := hS x hxhon
+        have := (hX x i Px P hxhon hi hPx hP hxi).2.2.2 j hj1
+        rw [this]
+        exact (h2x.CH j hj).2
+      · exact (List.filter_sublist).countP_le
+    · rw [v7 j]
+      rintro ⟨-, hji, hbad⟩
+      obtain ⟨Pj, hPj, -⟩ := hS j hj
+      have := (hX j i Pj P hj hi hPj hP hji).2.1
+      rw [this] at hbad
+      exact Bool.false_ne_true hbad
+  · intro i i' P1 P1' hi hi' hP1 hP1' k hk hki hki'
+    obtain ⟨P, st', I', cfs, P', hP, h2, hP', hout, cl, cx, e1, hl', bl, hb, v1, v2, v3, v4, v5, v6, v7⟩ :=
+      hparty i hi
+    obtain ⟨Q, stq, Iq, cfq, Q', hQ, hq2, hQ', houtq, clq, cxq, f1, hlq', blq, hbq, w1, w2, w3, w4, w5, w6, w7⟩ :=
+      hparty i' hi'
+    rw [hP'] at hP1
+    rw [hQ'] at hP1'
+    injection hP1 with hP1
+    injection hP1' with hP1'
+    subst hP1 hP1'
+    rw [hb k hk, hbq k hk, v5 k hk hki, w5 k hk hki', hAg i i' P Q hi hi' hP hQ k hk hki hki']
+    simp [hki, hki']
+  · intro i i' P1 P1' hi hi' hP1 hP1' hne
+    obtain ⟨P, st', I', cfs, P', hP, h2, hP', hout, cl, cx, e1, hl', bl, hb, v1, v2, v3, v4, v5, v6, v7⟩ :=
+      hparty i hi
+    obtain ⟨Q, stq, Iq, cfq, Q', hQ, hq2, hQ', houtq, clq, cxq, f1, hlq', blq, hbq, w1, w2, w3, w4, w5, w6, w7⟩ :=
+      hparty i' hi'
+    rw [hP'] at hP1
+    rw [hQ'] at hP1'
+    injection hP1 with hP1
+    injection hP1' with hP1'
+    subst hP1 hP1'
+    obtain ⟨hi1, -⟩ := (ag_mem_honestIdx ins i).mp hi
+    rw [S.hn] at hi1
+    obtain ⟨hi1', -⟩ := (ag_mem_honestIdx ins i').mp hi'
+    rw [S.hn] at hi1'
+    obtain ⟨x1, x2, x3, x4⟩ := hX i i' P Q hi hi' hP hQ hne
+    obtain ⟨y1, y2, y3, y4⟩ := hX i' i Q P hi' hi hQ hP (Ne.symm hne)
+    refine ⟨?_, ?_, ?_⟩
+    · intro k hk hki hki'
+      rw [e1, f1, v4, w4]
+      refine ⟨x1 k hk hki hki', ?_⟩
+      rw [v7 k, w7 k, hAg i i' P Q hi hi' hP hQ k hk hki hki']
+      simp [hk, hki, hki']
+    · intro w hw
+      rw [e1, f1, v6 w hw, w6 w hw, ← x4 w hw, ← y4 w hw]
+      rw [ag_sum_filter_ne (List.range n) List.nodup_range i (List.mem_range.mpr hi1),
+        ag_sum_filter_ne (List.range n) List.nodup_range i' (List.mem_range.mpr hi1')]
+      congr 1
+      apply List.map_congr_left
+      intro x hx
+      have hxn : x < n := List.mem_range.mp hx
+      by_cases hxi : x = i
+      · subst hxi
+        simp [hne]
+      · by_cases hxi' : x = i'
+        · subst hxi'
+          simp [hxi]
+        · simp only [hxi, hxi', if_false]
+          rw [hAg i i' P Q hi hi' hP hQ x hxn hxi hxi']
+    · have hstream : bsOf Q'.inbox i =
+          cfs.flatMap (fun (it : Nat) => [((none : Tag), (it : Int)),
+            (none, getI P.st.srow it), (none, getI P.st.sprow it)]) ++ [((none : Tag), (n : Int))] := by
+        rw [hbq i hi1, w5 i hi1 hne, x3, hout]
+        simp [hne]
+      have : Fact (Nat.Prime G.q.natAbs) := fact_q hG
+      obtain ⟨ha, hb', hla, hlb⟩ := ag_coef_range (G := G) t (pinOf ins i) (S.hc i hi)
+      have hra := ag_raS_honest (G := G) n hn64 (comOf G t (pinOf ins i)) (fun it => getI P.st.srow it)
+        (fun it => getI P.st.sprow it) cfs (n + 1) (by omega) (by
+          intro it hit
+          have hitn := cx it hit
+          rw [h2.srow, h2.sprow, ag_getI_map_range _ _ it hitn, ag_getI_map_range _ _ it hitn]
+          obtain ⟨l, r, e1, e2, e3⟩ := share_check_F hG _ _ (hla.trans hlb.symm) ha hb' _
+            (ag_comOf_spec hG t (pinOf ins i) (S.hc i hi)).1 (it + 1)
+          exact ⟨hitn, (ag_sh_range hG t _ it).1, (ag_sh_range hG t _ it).2.1, l, e1, by rw [e2, e3]⟩)
+      simp [raBad, hstream, hra]
+
+/-! ### (12) round 3: QUAL; the agreement theorems -/
+
+theorem ag_genResolve_qual_form (st st' : GenSt) (I I' : Inbox) (ops : List Op) (status : Status)
+    (h : genResolve G st I = .ok (st', I', ops, status)) :
+    ∃ p : Nat → Bool, st'.qual = (List.range st.n).filter p := by
+  unfold genResolve at h
+  obtain ⟨⟨I1, s, sp, cm⟩, -, h⟩ := ag_bind_ok _ _ _ h
+  simp only at h
+  split at h
+  · injection h with h; injection h with h; rw [← h]; exact ⟨_, rfl⟩
+  · split at h
+    · injection h with h; injection h with h; rw [← h]; exact ⟨_, rfl⟩
+    · split at h
+      · injection h with h; injection h with h; rw [← h]; exact ⟨_, rfl⟩
+      · injection h with h; injection h with h; rw [← h]; exact ⟨_, rfl⟩
+
+theorem ag_filter_range_eq (n : Nat) (p p' : Nat → Bool)
+    (h : ∀ k, k ∈ (List.range n).filter p ↔ k ∈ (List.range n).filter p') :
+    (List.range n).filter p = (List.range n).filter p' := by
+  apply List.filter_congr
+  intro x hx
+  have := h x
+  simp only [List.mem_filter, hx, true_and] at this
+  cases hp : p x <;> cases hp' : p' x <;> simp_all
+
+/-- after round 3: every honest party's QUAL contains every honest party, and two honest parties
+    have the same QUAL -/
+def Inv4 (ins : List PartyIn) (R : List (Party GenSt)) : Prop :=
+  (∀ i, i ∈ honestIdx ins → ∃ P, R[i]? = some P ∧ ∀ j, j ∈ honestIdx ins → j ∈ P.st.qual) ∧
+  (∀ i i' P P', i ∈ honestIdx ins → i' ∈ honestIdx ins → R[i]? = some P → R[i']? = some P' →
+    P.st.qual = P'.st.qual)
+
+/-- round 3 for one party that is still following the protocol -/
+theorem ag_round3_party (hG : ValidGrp G) (R : List (Party GenSt)) (i : Nat) (P : Party GenSt)
+    (hP : R[i]? = some P) (hl : HL P) (hn : P.st.n = n) (ht : P.st.t = t) (hi : P.st.i = i)
+    (hb : P.inbox.b.length = n) :
+    ∃ P' : Party GenSt, (runRound (genStep G ins n t 3) R)[i]? = some P' ∧
+      (∃ p : Nat → Bool, P'.st.qual = (List.range n).filter p) ∧
+      ∀ k, k ∈ P'.st.qual ↔ k < n ∧ ¬ (k ∈ P.st.compl ∨ t < getN P.st.cnt k ∨
+        (k ≠ i ∧ raBad G n (getRow P.st.C k) (bsOf P.inbox k) = true)) := by
+  obtain ⟨st', I', ops, status, hr, hq⟩ := ag_genResolve_spec hG P.st P.inbox (by rw [hb, hn])
+  simp only [hn, ht, hi] at hq
+  have hs : genStep G ins n t 3 i P.st P.inbox = .ok (st', I', ops, status) := hr
+  obtain ⟨-, P', hP', e1, -⟩ := ag_honest_round (genStep G ins n t 3) R i P hP hl _ _ _ _ hs
+  obtain ⟨p, hp⟩ := ag_genResolve_qual_form P.st st' P.inbox I' ops status hr
+  rw [hn] at hp
+  exact ⟨P', hP', ⟨p, by rw [e1]; exact hp⟩, by rw [e1]; exact hq⟩
+
+theorem ag_round3 (S : Setting G n t ins) (R : List (Party GenSt)) (h : Inv3 G n t ins R) :
+    Inv4 ins (runRound (genStep G ins n t 3) R) := by
+  obtain ⟨hlen, hS, hAg, hX⟩ := h
+  have hG := S.hG
+  have hparty : ∀ i, i ∈ honestIdx ins → ∃ (P P' : Party GenSt),
+      R[i]? = some P ∧ S3 G n t ins i P ∧ (runRound (genStep G ins n t 3) R)[i]? = some P' ∧
+      (∃ p : Nat → Bool, P'.st.qual = (List.range n).filter p) ∧
+      ∀ k, k ∈ P'.st.qual ↔ k < n ∧ ¬ (k ∈ P.st.compl ∨ t < getN P.st.cnt k ∨
+        (k ≠ i ∧ raBad G n (getRow P.st.C k) (bsOf P.inbox k) = true)) := by
+    intro i hi
+    obtain ⟨P, hP, h3⟩ := hS i hi
+    obtain ⟨P', hP', hp, hq⟩ := ag_round3_party (ins := ins) hG R i P hP h3.hl h3.hn h3.ht h3.hi h3.blen
+    exact ⟨P, P', hP, h3, hP', hp, hq⟩
+  have hmem : ∀ i, i ∈ honestIdx ins → ∀ (P P' : Party GenSt), R[i]? = some P →
+      (∀ k, k ∈ P'.st.qual ↔ k < n ∧ ¬ (k ∈ P.st.compl ∨ t < getN P.st.cnt k ∨
+        (k ≠ i ∧ raBad G n (getRow P.st.C k) (bsOf P.inbox k) = true))) →
+      ∀ j, j ∈ honestIdx ins → j ∈ P'.st.qual := by
+    intro i hi P P' hP hq j hj
+    obtain ⟨P0, hP0, h3⟩ := hS i hi
+    rw [hP] at hP0
+    injection hP0 with hP0
+    subst hP0
+    obtain ⟨hj1, -⟩ := (ag_mem_honestIdx ins j).mp hj
+    rw [S.hn] at hj1
+    obtain ⟨c1, c2, c3⟩ := h3.CH j hj
+    rw [hq j]
+    refine ⟨hj1, ?_⟩
+    rintro (h | h | ⟨hji, h⟩)
+    · exact c3 h
+    · omega
+    · obtain ⟨Pj, hPj, -⟩ := hS j hj
+      have := (hX j i Pj P hj hi hPj hP hji).2.2
+      rw [c1, this] at h
+      exact Bool.false_ne_true h
+  constructor
+  · intro i hi
+    obtain ⟨P, P', hP, h3, hP', -, hq⟩ := hparty i hi
+    exact ⟨P', hP', hmem i hi P P' hP hq⟩
+  · intro i i' P1 P1' hi hi' hP1 hP1'
+    by_cases hne : i = i'
+    · subst hne
+      rw [hP1] at hP1'
+      injection hP1' with hP1'
+      rw [hP1']
+    obtain ⟨P, P', hP, h3, hP', ⟨p, hp⟩, hq⟩ := hparty i hi
+    obtain ⟨Q, Q', hQ, hq3, hQ', ⟨p', hp'⟩, hqq⟩ := hparty i' hi'
+    rw [hP'] at hP1
+    rw [hQ'] at hP1'
+    injection hP1 with hP1
+    injection hP1' with hP1'
+    subst hP1 hP1'
+    rw [hp, hp']
+    apply ag_filter_range_eq
+    intro k
+    rw [← hp, ← hp']
+    by_cases hki : k = i
+    · subst hki
+      exact ⟨fun _ => hmem i' hi' Q Q' hQ hqq k hi, fun _ => hmem k hi P P' hP hq k hi⟩
+    by_cases hki' : k = i'
+    · subst hki'
+      exact ⟨fun _ => hmem k hi' Q Q' hQ hqq k hi', fun _ => hmem i hi P P' hP hq k hi'⟩
+    rw [hq k, hqq k]
+    by_cases hk : k < n
+    · obtain ⟨x1, x2, -⟩ := hX i i' P Q hi hi' hP hQ hne
+      obtain ⟨y1, y2⟩ := x1 k hk hki hki'
+      rw [y1, y2, x2 k hk, hAg i i' P Q hi hi' hP hQ k hk hki hki']
+      simp [hki, hki']
+    · simp [hk]
+
+theorem ag_range_split (t : Nat) : List.range (6 + t + 1) = [0, 1, 2, 3] ++ List.range' 4 (t + 3) := by
+  rw [List.range_eq_range', show 6 + t + 1 = 4 + (t + 3) by omega, ← List.range'_append_1]
+  rfl
+
+/-- the run up to QUAL -/
+theorem ag_inv4 (S : Setting G n t ins) (hn64 : n < 2 ^ 64) (hf : n - (honestIdx ins).length ≤ t) :
+    Inv4 ins (runRounds (genStep G ins n t) [0, 1, 2, 3] (ps0 n t ins)) :=
+  ag_round3 S _ (ag_round2 S hn64 hf _ (ag_round1 S hn64 _ (ag_round0 S)))
+
+theorem ag_runGen_qual (n t : Nat) (ins : List PartyIn) (i : Nat) :
+    ((runGen G n t ins)[i]?).map (fun P => P.st.qual) =
+      ((runRounds (genStep G ins n t) [0, 1, 2, 3] (ps0 n t ins))[i]?).map (fun P => P.st.qual) := by
+  rw [ag_runGen_eq, ag_range_split, ag_runRounds_append]
+  apply ag_runRounds_qual
+  intro k hk
+  have := (List.mem_range'_1.mp hk).1
+  exact this
+
+set_option linter.unusedVariables false in
+/-- all honest parties compute the same set QUAL (for ALL scripts of the other parties).
+
+    Statement of `qual_agree` (TmcgProofs/Dkg.lean) plus `n < 2^64`: without the bound the statement
+    is FALSE in the model, because `mpz_get_ui` truncates the end marker `n` of a complaint list to
+    `n mod 2^64 < n`, which is then read as a complaint (see the report at the end of the file). -/
+theorem qual_agree' (hG : ValidGrp G) (n t : Nat) (ins : List PartyIn) (hn : ins.length = n) (ht : 2 * t < n)
+    (hn64 : n < 2 ^ 64)
+    (hf : n - (honestIdx ins).length ≤ t)
+    (hc : ∀ i ∈ honestIdx ins, goodCoins G t (ins.getD i ⟨[], [], {}, {}⟩))
+    (i j : Nat) (hi : i ∈ honestIdx ins) (hj : j ∈ honestIdx ins) (Pi Pj : Party GenSt)
+    (hPi : (runGen G n t ins)[i]? = some Pi) (hPj : (runGen G n t ins)[j]? = some Pj) :
+    Pi.st.qual = Pj.st.qual := by
+  have S : Setting G n t ins := ⟨hG, hn, hc⟩
+  obtain ⟨-, h4⟩ := ag_inv4 S hn64 hf
+  have e1 := ag_runGen_qual (G := G) n t ins i
+  have e2 := ag_runGen_qual (G := G) n t ins j
+  rw [hPi] at e1
+  rw [hPj] at e2
+  cases hQi : (runRounds (genStep G ins n t) [0, 1, 2, 3] (ps0 n t ins))[i]? with
+  | none => rw [hQi] at e1; cases e1
+  | some Qi =>
+    cases hQj : (runRounds (genStep G ins n t) [0, 1, 2, 3] (ps0 n t ins))[j]? with
+    | none => rw [hQj] at e2; cases e2
+    | some Qj =>
+      rw [hQi] at e1
+      rw [hQj] at e2
+      simp only [Option.map_some, Option.some.injEq] at e1 e2
+      rw [e1, e2]
+      exact h4 i j Qi Qj hi hj hQi hQj
+
+set_option linter.unusedVariables false in
+/-- honest parties are never disqualified (statement of `honest_in_qual` plus `n < 2^64`, see
+    `qual_agree'`) -/
+theorem honest_in_qual' (hG : ValidGrp G) (n t : Nat) (ins : List PartyIn) (hn : ins.length = n) (ht : 2 * t < n)
+    (hn64 : n < 2 ^ 64)
+    (hf : n - (honestIdx ins).length ≤ t)
+    (hc : ∀ i ∈ honestIdx ins, goodCoins G t (ins.getD i ⟨[], [], {}, {}⟩))
+    (i j : Nat) (hi : i ∈ honestIdx ins) (hj : j ∈ honestIdx ins) (Pi : Party GenSt)
+    (hPi : (runGen G n t ins)[i]? = some Pi) :
+    j ∈ Pi.st.qual := by
+  have S : Setting G n t ins := ⟨hG, hn, hc⟩
+  obtain ⟨h4, -⟩ := ag_inv4 S hn64 hf
+  have e1 := ag_runGen_qual (G := G) n t ins i
+  rw [hPi] at e1
+  obtain ⟨Qi, hQi, hq⟩ := h4 i hi
+  rw [hQi] at e1
+  simp only [Option.map_some, Option.some.injEq] at e1
+  rw [e1]
+  exact hq j hj
+
+/-! ### (13) the bound `n < 2^64` is needed: refutation of the unrestricted statements
+
+  For `n ≥ 2^64` the end marker `n` of a complaint list is truncated by `mpz_get_ui` to
+  `n mod 2^64 < n` and read as a complaint; the reader then runs into a time-out and puts the
+  sender on its complaint list.  With `n = 2^64`, `t = 0` and every party honest, party 0 ends with
+  `1 ∉ QUAL` and party 1 with `1 ∈ QUAL`. -/
+
+theorem cx_rcS_marker (n : Nat) (hn : 2 ^ 64 ≤ n) :
+    rcS n (n + 1) 0 [] [((none : Tag), (n : Int))] = ([n % 2 ^ 64], 1, []) := by
+  obtain ⟨m, rfl⟩ : ∃ m, n = m + 1 := ⟨n - 1, by omega⟩
+  have hui : getUi ((m + 1 : Nat) : Int) = (m + 1) % 2 ^ 64 := by
+    unfold getUi
+    rw [Int.natAbs_natCast]
+  have hlt : (m + 1) % 2 ^ 64 < m + 1 := lt_of_lt_of_le (Nat.mod_lt _ (by norm_num)) hn
+  rw [rcS, ag_popS_none_cons]
+  simp only [hui, hlt, true_and]
+  rw [rcS, ag_popS_nil]
+  simp
+
+/-- all parties honest, `t = 0`, `2^64 ∣ n`: party 0 excludes party 1, party 1 keeps itself -/
+theorem cx_general (hG : ValidGrp G) (n : Nat) (ins : List PartyIn) (hn : ins.length = n)
+    (hbig : 2 ^ 64 ≤ n) (hmod : n % 2 ^ 64 = 0)
+    (hall : ∀ i, i < n → (pinOf ins i).dev1.honest = true)
+    (hc : ∀ i, i < n → goodCoins G 0 (pinOf ins i)) :
+    ∃ P0 P1 : Party GenSt, (runGen G n 0 ins)[0]? = some P0 ∧ (runGen G n 0 ins)[1]? = some P1 ∧
+      1 ∉ P0.st.qual ∧ 1 ∈ P1.st.qual := by
+  have hon : ∀ i, i < n → i ∈ honestIdx ins := fun i hi =>
+    (ag_mem_honestIdx ins i).mpr ⟨by rw [hn]; exact hi, hall i hi⟩
+  have hlt : ∀ i, i ∈ honestIdx ins → i < n := fun i hi => by
+    have := ((ag_mem_honestIdx ins i).mp hi).1
+    rwa [hn] at this
+  have S : Setting G n 0 ins := ⟨hG, hn, fun i hi => hc i (hlt i hi)⟩
+  have I1 := ag_round0 S
+  -- round 1
+  have hS2 := ag_round1_S2 S _ I1
+  have hstream : ∀ i i', i < n → i' < n → i ≠ i' → ∀ P, (runRound (genStep G ins n 0 1)
+      (runRound (genStep G ins n 0 0) (ps0 n 0 ins)))[i']? = some P →
+      bsOf P.inbox i = [((none : Tag), (n : Int))] := by
+    intro i i' hi hi' hne P hP
+    obtain ⟨_, _, _, D, _, _, _, _, hout, _, _, _, _, _, _, _, _, _, _, hD, _, _, hDh, _⟩ :=
+      ag_round1_party S _ I1 i (hon i hi)
+    obtain ⟨_, _, I', _, P', _, _, hP', _, _, _, _, hb, _, _, _, _, _, _, _, _, _, _, hI'⟩ :=
+      ag_round1_party S _ I1 i' (hon i' hi')
+    rw [hP'] at hP
+    injection hP with hP
+    subst hP
+    have hDnil : D = [] := by
+      apply List.eq_nil_iff_forall_not_mem.mpr
+      intro x hx
+      exact (hDh x (hon x (hD x hx))).2 hx
+    rw [hb i hi, hI' i (hon i hi) hne, hout, hDnil]
+    simp [hne]
+  -- round 2
+  have hr2 : ∀ i', i' < n → ∃ P' : Party GenSt,
+      (runRound (genStep G ins n 0 2) (runRound (genStep G ins n 0 1)
+        (runRound (genStep G ins n 0 0) (ps0 n 0 ins))))[i']? = some P' ∧
+      HL P' ∧ P'.st.n = n ∧ P'.st.t = 0 ∧ P'.st.i = i' ∧ P'.inbox.b.length = n ∧
+      (∀ k, k ∈ P'.st.compl ↔ k < n ∧ k ≠ i') ∧ (i' ≠ 0 → getN P'.st.cnt i' = 0) := by
+    intro i' hi'
+    obtain ⟨P, st', I', cfs, P', hP, h2, hP', _, _, _, e1, hl', bl, _, v1, v2, v3, _, _, v6, v7⟩ :=
+      ag_round2_party (G := G) _ hS2 i' (hon i' hi')
+    refine ⟨P', hP', hl', by rw [e1]; exact v1, by rw [e1]; exact v2, by rw [e1]; exact v3, bl, ?_, ?_⟩
+    · intro k
+      rw [e1, v7 k]
+      constructor
+      · rintro ⟨h1, h2, -⟩
+        exact ⟨h1, h2⟩
+      · rintro ⟨h1, h2⟩
+        refine ⟨h1, h2, ?_⟩
+        rw [hstream k i' h1 hi' h2 P hP]
+        simp [rcBad, cx_rcS_marker n hbig]
+    · intro hne0
+      rw [e1, v6 i' hi', (h2.CH i' (hon i' hi')).2, Nat.zero_add]
+      apply List.sum_eq_zero
+      intro y hy
+      obtain ⟨x, hx, rfl⟩ := List.mem_map.mp hy
+      obtain ⟨hx1, hx2⟩ := List.mem_filter.mp hx
+      have hxn : x < n := List.mem_range.mp hx1
+      have hxi : x ≠ i' := by simpa using hx2
+      rw [hstream x i' hxn hi' hxi P hP]
+      simp only [rcNews, cx_rcS_marker n hbig, hmod]
+      simp [Ne.symm hne0]
+  -- round 3
+  have h1n : 1 < n := lt_of_lt_of_le (by norm_num) hbig
+  have h0n : 0 < n := by omega
+  obtain ⟨Q0, hQ0, hl0, a1, a2, a3, a4, a5, -⟩ := hr2 0 h0n
+  obtain ⟨Q1, hQ1, hl1, b1, b2, b3, b4, b5, b6⟩ := hr2 1 h1n
+  obtain ⟨P0, hP0, -, q0⟩ := ag_round3_party (ins := ins) hG _ 0 Q0 hQ0 hl0 a1 a2 a3 a4
+  obtain ⟨P1, hP1, -, q1⟩ := ag_round3_party (ins := ins) hG _ 1 Q1 hQ1 hl1 b1 b2 b3 b4
+  have e0 := ag_runGen_qual (G := G) n 0 ins 0
+  have e1 := ag_runGen_qual (G := G) n 0 ins 1
+  have hR : runRounds (genStep G ins n 0) [0, 1, 2, 3] (ps0 n 0 ins) =
+      runRound (genStep G ins n 0 3) (runRound (genStep G ins n 0 2) (runRound (genStep G ins n 0 1)
+        (runRound (genStep G ins n 0 0) (ps0 n 0 ins)))) := rfl
+  rw [hR, hP0] at e0
+  rw [hR, hP1] at e1
+  simp only [Option.map_some, Option.map_eq_some_iff] at e0 e1
+  obtain ⟨F0, hF0, g0⟩ := e0
+  obtain ⟨F1, hF1, g1⟩ := e1
+  refine ⟨F0, F1, hF0, hF1, ?_, ?_⟩
+  · rw [g0, q0 1]
+    rintro ⟨-, h⟩
+    exact h (Or.inl ((a5 1).mpr ⟨h1n, by norm_num⟩))
+  · rw [g1, q1 1]
+    refine ⟨h1n, ?_⟩
+    rintro (h | h | ⟨h, -⟩)
+    · exact ((b5 1).mp h).2 rfl
+    · rw [b6 (by norm_num)] at h
+      exact Nat.lt_irrefl 0 h
+    · exact h rfl
+
+/-- a small valid CRS: `p = 7`, `q = 3`, `g = 2`, `h = 4` -/
+theorem cx_grp : ∃ G : Dkg.Grp, ValidGrp G ∧ G.q = 3 := by
+  obtain ⟨tg, h1⟩ := precompute_ok 2 7 (bitlen 3) (by norm_num)
+  obtain ⟨th, h2⟩ := precompute_ok 4 7 (bitlen 3) (by norm_num)
+  have hm : mkGrp 7 3 2 4 = .ok ⟨7, 3, 2, 4, tg, th⟩ := by
+    simp only [mkGrp, h1, h2, bind, Except.bind, pure, Except.pure]
+  have hfit : bitlen 3 ≤ Gen.TMCG_MAX_FPOWM_T := by
+    have : Nat.log2 3 < 2047 := (Nat.log2_lt (by norm_num)).mpr (by
+      calc 3 < 2 ^ 2 := by norm_num
+        _ ≤ 2 ^ 2047 := Nat.pow_le_pow_right (by norm_num) (by norm_num))
+    simp only [bitlen, Gen.TMCG_MAX_FPOWM_T]
+    norm_num
+    omega
+  refine ⟨⟨7, 3, 2, 4, tg, th⟩, mkGrp_valid hm ?_ ?_, rfl⟩
+  · exact ⟨by norm_num, by norm_num, Nat.prime_seven, Nat.prime_three, by norm_num, by norm_num, by norm_num, hfit⟩
+  · exact ⟨by norm_num, by norm_num, Nat.prime_seven, Nat.prime_three, by norm_num, by norm_num, by norm_num, hfit⟩
+
+def cxPin : PartyIn := ⟨[0, 0], [], {}, {}⟩
+
+theorem cx_instance (n : Nat) (hn : n = 2 ^ 64) :
+    ∃ (G : Dkg.Grp) (_ : ValidGrp G) (ins : List PartyIn), ins.length = n ∧
+      n - (honestIdx ins).length ≤ 0 ∧
+      (∀ i ∈ honestIdx ins, goodCoins G 0 (ins.getD i ⟨[], [], {}, {}⟩)) ∧
+      0 ∈ honestIdx ins ∧ 1 ∈ honestIdx ins ∧
+      ∃ P0 P1 : Party GenSt, (runGen G n 0 ins)[0]? = some P0 ∧ (runGen G n 0 ins)[1]? = some P1 ∧
+        1 ∉ P0.st.qual ∧ 1 ∈ P1.st.qual := by
+  obtain ⟨G, hG, hq⟩ := cx_grp
+  have : Fact (Nat.Prime G.p.natAbs) := fact_p hG
+  have hlen : (List.replicate n cxPin).length = n := List.length_replicate
+  have hpin : ∀ i, i < n → pinOf (List.replicate n cxPin) i = cxPin := by
+    intro i hi
+    unfold pinOf
+    rw [List.getD_eq_getElem _ _ (by rw [hlen]; exact hi), List.getElem_replicate]
+  have hhon : cxPin.dev1.honest = true := rfl
+  have hgood : goodCoins G 0 cxPin := by
+    refine ⟨by simp [cxPin], ?_⟩
+    intro c hc
+    simp only [cxPin, List.mem_cons, List.not_mem_nil, or_false, or_self] at hc
+    rw [hc, hq]
+    norm_num
+  have hidx : ∀ i, i < n → i ∈ honestIdx (List.replicate n cxPin) := fun i hi =>
+    (ag_mem_honestIdx _ i).mpr ⟨by rw [hlen]; exact hi, by rw [hpin i hi]; exact hhon⟩
+  have hall : honestIdx (List.replicate n cxPin) = List.range n := by
+    unfold honestIdx
+    rw [hlen]
+    apply List.filter_eq_self.mpr
+    intro i hi
+    have := hpin i (List.mem_range.mp hi)
+    unfold pinOf at this
+    rw [this]
+    exact hhon
+  have hbig : 2 ^ 64 ≤ n := by rw [hn]
+  have hmod : n % 2 ^ 64 = 0 := by rw [hn, Nat.mod_self]
+  have h1n : 1 < n := lt_of_lt_of_le (by norm_num) hbig
+  refine ⟨G, hG, List.replicate n cxPin, hlen, by rw [hall]; simp, ?_, hidx 0 (by omega), hidx 1 h1n, ?_⟩
+  · intro i hi
+    have hi' : i < n := by
+      have := ((ag_mem_honestIdx _ i).mp hi).1
+      rwa [hlen] at this
+    have := hpin i hi'
+    unfold pinOf at this
+    rw [this]
+    exact hgood
+  · exact cx_general hG n _ hlen hbig hmod (fun i hi => by rw [hpin i hi]; exact hhon)
+      (fun i hi => by rw [hpin i hi]; exact hgood)
+
+/-- `honest_in_qual` of TmcgProofs/Dkg.lean without a bound on `n` does not hold -/
+theorem honest_in_qual_unbounded_false :
+    ¬ (∀ (G : Dkg.Grp) [Fact (Nat.Prime G.p.natAbs)] (_ : ValidGrp G) (n t : Nat) (ins : List PartyIn)
+        (_ : ins.length = n) (_ : 2 * t < n) (_ : n - (honestIdx ins).length ≤ t)
+        (_ : ∀ i ∈ honestIdx ins, goodCoins G t (ins.getD i ⟨[], [], {}, {}⟩))
+        (i j : Nat) (_ : i ∈ honestIdx ins) (_ : j ∈ honestIdx ins) (Pi : Party GenSt)
+        (_ : (runGen G n t ins)[i]? = some Pi), j ∈ Pi.st.qual) := by
+  intro H
+  obtain ⟨n, hn⟩ : ∃ n : Nat, n = 2 ^ 64 := ⟨_, rfl⟩
+  obtain ⟨G, hG, ins, hlen, hf, hc, h0, h1, P0, P1, hP0, hP1, hq0, hq1⟩ := cx_instance n hn
+  have : Fact (Nat.Prime G.p.natAbs) := fact_p hG
+  exact hq0 (H G hG n 0 ins hlen (by rw [hn]; norm_num) hf hc 0 1 h0 h1 P0 hP0)
+
+/-- `qual_agree` of TmcgProofs/Dkg.lean without a bound on `n` does not hold -/
+theorem qual_agree_unbounded_false :
+    ¬ (∀ (G : Dkg.Grp) [Fact (Nat.Prime G.p.natAbs)] (_ : ValidGrp G) (n t : Nat) (ins : List PartyIn)
+        (_ : ins.length = n) (_ : 2 * t < n) (_ : n - (honestIdx ins).length ≤ t)
+        (_ : ∀ i ∈ honestIdx ins, goodCoins G t (ins.getD i ⟨[], [], {}, {}⟩))
+        (i j : Nat) (_ : i ∈ honestIdx ins) (_ : j ∈ honestIdx ins) (Pi Pj : Party GenSt)
+        (_ : (runGen G n t ins)[i]? = some Pi) (_ : (runGen G n t ins)[j]? = some Pj),
+        Pi.st.qual = Pj.st.qual) := by
+  intro H
+  obtain ⟨n, hn⟩ : ∃ n : Nat, n = 2 ^ 64 := ⟨_, rfl⟩
+  obtain ⟨G, hG, ins, hlen, hf, hc, h0, h1, P0, P1, hP0, hP1, hq0, hq1⟩ := cx_instance n hn
+  have : Fact (Nat.Prime G.p.natAbs) := fact_p hG
+  have := H G hG n 0 ins hlen (by rw [hn]; norm_num) hf hc 0 1 h0 h1 P0 P1 hP0 hP1
+  rw [this] at hq0
+  exact hq0 hq1
 
 end Tmcg.DkgP
